@@ -80,6 +80,58 @@ CHECKS = {
             'About 1.5e5 (quick) neighbourhood queries, every one compared element-wise and in order with the clipped '
             'Chebyshev / Manhattan ball computed from the world\'s own position table.',
             'Exhaustive relative to the shape range; wrap_env=False.', 'DESIGN.md section 4 C10'),
+    'C11': ('hbfs', 'explicit-state BFS over add/remove/mutate-buffer histories of named cell components per grid '
+                    'shape and source kind; known finding F4',
+            'Every history up to the depth bound over 3 names x 7 source kinds per shape; after each operation every '
+            'column is compared cell by cell with the value its source assigns to that cell, other columns / pos / row '
+            'count must be untouched, and writes into the caller\'s buffer must not show through.',
+            'Depth-bounded (3 / 4); shapes listed in the evidence; F4 divergences must match the as-is signature '
+            '(exception and bit-identical table).', 'DESIGN.md section 4 C11'),
+    'C12': ('scope', 'exhaustive product agent position x query point x leeway combination per world, plus '
+                     'explicit-state BFS over populations with a query menu in every state; known finding F5',
+            'Every (position, query, leeways) combination of the lattices is evaluated on the real query and compared '
+            'with an exact-rational box filter; in wrapping worlds the seam-aware answer is required and the plain '
+            'interval answer is accepted only as listed finding F5.',
+            'Exhaustive relative to the lattices (step 0.5 / 1) and leeway sets; population leg depth-bounded.',
+            'DESIGN.md section 4 C12'),
+    'C13': ('hbfs', 'explicit-state BFS over populations to the fixpoint; in every state every template x tag query, and '
+                    'exhaustive enumeration of the scripted model generator\'s decision tree for picks and shuffles',
+            'All residency orders of 4-5 agent pools; in each every ordered template over X,Y,Z x tag filter is compared '
+            'with a reference filter; the model generator is scripted so every pick and every permutation is reached.',
+            'Exhaustive relative to the pools; assumes draws go through the model generator\'s integer primitive.',
+            'DESIGN.md section 4 C13'),
+    'C14': ('hbfs', 'explicit-state BFS over declaration histories; build() twice in every state against a nested-loop '
+                    'product',
+            'Every declaration of up to 3 parameters over 9 (11) value kinds incl. scalars, strings, empty, repeated '
+            'values, range, numpy; order, multiplicity, independence of results and immutability of the declaration.',
+            'Exhaustive relative to names a,b,c and the value kinds (fixpoint in thorough).', 'DESIGN.md section 4 C14'),
+    'C17': ('hbfs', 'explicit-state BFS over population changes between/during timesteps per collector configuration; '
+                    'exhaustive record-count sequences x write_count x window on real files with a check at every '
+                    'stopping point',
+            'Agent collector: full records list compared with a reference after every operation. File collector: '
+            'after every timestep of every run the file text and the held records must equal the whole-flush prefix '
+            'and remainder of everything collected.',
+            'Depth-bounded agent leg; file leg exhaustive for T=5 (7), write_count 0..3 (0..5).',
+            'DESIGN.md section 4 C17'),
+    'C18': ('scope', 'exhaustive enumeration of model descriptions (shapes, sizes, priorities, hook subsets) decoded '
+                     'from real JSON files, event-log oracle',
+            'Each description is decoded three times (same file, other file in between); recording fixtures log every '
+            'lifecycle event with the model state at that moment; the log must equal the documented lifecycle exactly.',
+            'Exhaustive relative to <=2 systems, <=2 groups of size <=2, all hook subsets (restricted on the largest '
+            'shape in quick).', 'DESIGN.md section 4 C18'),
+    'C19': ('hbfs', 'explicit-state BFS over add_tag histories on a local and on the module-level library with '
+                    'bystander libraries; fresh-interpreter leg for module-level histories',
+            'Every history up to the depth bound over 16 (21) names incl. method names, dunders and odd strings; after '
+            'every operation every library is read back in full (ids, names, itemize, len, out-of-range ids, probe '
+            'add on a copy); rejected names must leave all three libraries bit-identical.',
+            'Depth-bounded (3 / 4); module-level histories on a fresh module instance, depth <=1 (2) also in a real '
+            'fresh interpreter.', 'DESIGN.md section 4 C19'),
+    'C20': ('hbfs', 'explicit-state BFS over class-level attach/detach/default-tag/subclass histories on a fresh '
+                    'class hierarchy with full read-back of every class and instance creation in every state',
+            'Every history up to the depth bound; every class (base, siblings, two-level subclass, environments, '
+            'classes defined mid-history) is read back after every operation; instances are created with and '
+            'without explicit tags and given instance-level components.',
+            'Depth-bounded (4 / 5).', 'DESIGN.md section 4 C20'),
 }
 
 PENDING = {}
